@@ -15,6 +15,7 @@ import Frugal.BuildCache
 import Frugal.Reference
 import Frugal.Proofs.NormFacts
 import Frugal.Proofs.ClearNocopy2
+import Frugal.Proofs.Holders
 open Frugal Frugal.Proto
 
 structure Ctx where
@@ -98,7 +99,14 @@ def sideOn (S' : Schema) (r : List Nat) : Option String :=
       hasTy S' (.strct j) (zeroVal S' S'.length (.strct j))) then some "schema-side-condition"
   else none
 
-/-- C01 (`Frugal.C01.roundtrip`): the first of its hypotheses this (schema, value, destination)
+/-- hypotheses of `Frugal.C01.roundtrip_with_top_holder` on the holder: it is the serialisation of
+    well-formed fields none of which the struct recognises, skippable within 64 levels -/
+def topHolderOK (S : Schema) (i : Nat) (h : Bytes) : Bool :=
+  let us := holderFields h
+  serFields us == h && wfFields us &&
+    us.all fun p => (lookupKnown (S.get i) p.1 p.2.tag).isNone && decide (skipNeed p.2 ≤ 64)
+
+/-- C01 (`Frugal.C01.roundtrip` / `roundtrip_with_top_holder`): the first of its hypotheses this (schema, value, destination)
     does not meet, if any -/
 def rtWhy (S : Schema) (r : List Nat) (i : Nat) (vv dv : Val) : Option String :=
   match vv with
@@ -108,7 +116,8 @@ def rtWhy (S : Schema) (r : List Nat) (i : Nat) (vv dv : Val) : Option String :=
     | none =>
     if !hasTy S (.strct i) vv then some "value-not-typed"
     else if !hasTy S (.strct i) dv then some "dest-not-typed"
-    else if !(h.isEmpty && noHolderList xs) then some "holder-bytes"
+    else if !noHolderList xs then some "nested-holder-bytes"
+    else if !(h.isEmpty || topHolderOK S i h) then some "holder-not-unrecognised-fields"
     else if !sizesFitList xs then some "size"
     else if !rtOK S (.strct i) vv then some "nil-struct-with-required-fields"
     else if !decide (depth (toWire S (.strct i) vv) ≤ 511) then some "depth"
@@ -173,7 +182,11 @@ def handle (ctx : Ctx) (ln : String) : Option String :=
         match rtWhy S' r i vv dv with
         | some why => some ("SKIP rt:" ++ why)
         | none =>
-          let exp := "ok " ++ toString (appendM ctx.P S' i vv).length ++ " " ++ showVal (normTop S' i vv dv)
+          -- a non-empty top-level holder comes back byte for byte (roundtrip_with_top_holder)
+          let nf := match normTop S' i vv dv, vv with
+            | .st fs h', .st _ h => Val.st fs (if h.isEmpty then h' else h)
+            | w, _ => w
+          let exp := "ok " ++ toString (appendM ctx.P S' i vv).length ++ " " ++ showVal nf
           -- `nocopy` strings come back as views of the input: their provenance is forgotten here
           -- (C01.roundtrip_with_nocopy); where the bytes live is checked on the `dec` line (C14)
           let got := match go with
